@@ -911,3 +911,9 @@ MANIFEST_ENTRY = dict(
          'for histories of any length.',
     note='Format v2 only; v1 and defragmentation are outside (stated); payload length small and concrete; file < 1 TiB.',
 )
+
+# --- manifest text refreshed after rounds 6-8 (obligations added since the entry above was written)
+MANIFEST_ENTRY['text'] = 'From an arbitrary valid v2 or v1 bundle, one store or remove with symbolic address and payload preserves the representation invariant, reads back exactly, leaves every other slot (entry, record bytes, size field) untouched -- by a frame argument over the flush log -- and never shrinks the file, hence for histories of any length; a batch of two tiles in one store_tiles call appends the second record behind the first; v2 index entries round-trip for every record size or are refused; v1 bulk load; defragmentation copies every slot.'
+MANIFEST_ENTRY['note'] = 'Payload lengths small and concrete; file < 1 TiB; defragmentation is checked as "rewrite copies every slot" on stubs of the bundle objects, not on bytes; v1 header statistics are outside.'
+META['assumptions'] = list(META.get('assumptions', [])) + ['truncate(n) is recorded in the flush log and seen by the frame argument']
+META['bounds'] = META.get('bounds', '') + '; batch obligations: two tiles (3 + 2 payload bytes) in one store_tiles call'
